@@ -13,11 +13,20 @@ import (
 	"go.uber.org/zap/zaptest/observer"
 )
 
-//verif: prop=C09 bounds="slog handler shared by two goroutines: Handle || Handle, Handle || WithAttrs+Handle, Handle || WithGroup+Handle, on a handler with pending groups, fresh or warmed up; observer core; every interleaving of synchronisation operations with at most 2 preemptions; happens-before race monitor"
+//verif: prop=C09 bounds="slog handler shared by two goroutines: Handle || Handle, Handle || WithAttrs+Handle, Handle || WithGroup+Handle, WithGroup+Handle || WithGroup+Handle, on a handler with pending groups (also held in a slice with spare capacity), fresh or warmed up; observer core; every interleaving of synchronisation operations with at most 2 preemptions; happens-before race monitor"
 func VC09Slog() {
 	core, _ := observer.New(zapcore.DebugLevel)
-	var h slog.Handler = NewHandler(core, WithCaller(false))
-	h = h.WithGroup("g")
+	root := NewHandler(core, WithCaller(false))
+	var h slog.Handler = root.WithGroup("g")
+	if vrt.Choice("spare", 2) == 1 {
+		// the pending-group slice has spare capacity (a state chains of WithGroup calls may produce):
+		// siblings derived concurrently must not write into the same backing array
+		gs := make([]string, 1, 4)
+		gs[0] = "g"
+		cloned := *root
+		cloned.groups = gs
+		h = &cloned
+	}
 	rec := func(msg string) slog.Record {
 		r := slog.NewRecord(time.Unix(1, 0), slog.LevelInfo, msg, 0)
 		r.AddAttrs(slog.Int("a", 1))
@@ -26,10 +35,17 @@ func VC09Slog() {
 	if vrt.Choice("warm", 2) == 1 {
 		_ = h.Handle(context.Background(), rec("warm"))
 	}
-	prog := vrt.Choice("program", 3)
+	prog := vrt.Choice("program", 4)
 	var wg sync.WaitGroup
 	wg.Add(2)
-	go func() { defer wg.Done(); _ = h.Handle(context.Background(), rec("a")) }()
+	go func() {
+		defer wg.Done()
+		if prog == 3 {
+			_ = h.WithGroup("k").Handle(context.Background(), rec("a")) // two siblings derived at once
+			return
+		}
+		_ = h.Handle(context.Background(), rec("a"))
+	}()
 	go func() {
 		defer wg.Done()
 		switch prog {
@@ -37,7 +53,7 @@ func VC09Slog() {
 			_ = h.Handle(context.Background(), rec("b"))
 		case 1:
 			_ = h.WithAttrs([]slog.Attr{slog.String("k", "v")}).Handle(context.Background(), rec("b"))
-		case 2:
+		case 2, 3:
 			_ = h.WithGroup("h").Handle(context.Background(), rec("b"))
 		}
 	}()
